@@ -14,6 +14,7 @@ type Outcome struct {
 	st       *State
 	results  []Val
 	panicked bool // st.panicking holds the value
+	exited   bool // the process-exit function was called (assumption A-exit: it does not return)
 }
 
 type unsupported struct{ msg string }
